@@ -79,7 +79,8 @@ fn gen(rng: &mut Rng) -> Program {
         let b = if a == ndb - 1 { 0 } else { a + 1 };
         let motif = vec![
             Op::CreateDb { db: a },
-            Op::ArmCrash { k: rng.range(1, 4) as u32, after: rng.chance(1, 2) },
+            // (the snapshot request itself is logged first: the kill lands among the first dozen disk calls)
+            Op::ArmCrash { k: rng.range(1, 12) as u32, after: rng.chance(1, 2) },
             Op::Snapshot { mask: 1 << a, reclaim: false },
             Op::Write { db: 0, key: 0 },
             Op::CreateDb { db: b },
